@@ -509,7 +509,22 @@ pub(crate) fn load_defs(ctx: &mut Context, defs: Defs) -> Vec<String> {
                         unique.insert(&*prop.name);
                         unique.insert(&*prop.input_name);
                         unique.insert(&*prop.output_name);
-                        let unit = (&input / &output).expect("Non-zero property").unit;
+                        if input.value == Numeric::zero() || input.value == Numeric::Float(0.0) {
+                            return Err(format!(
+                                "Property {} of {} has an input of zero",
+                                prop.name, name
+                            ));
+                        }
+                        let ratio = match &input / &output {
+                            Some(ratio) => ratio,
+                            None => {
+                                return Err(format!(
+                                    "Property {} of {} has an output of zero",
+                                    prop.name, name
+                                ))
+                            }
+                        };
+                        let unit = ratio.unit.clone();
                         let existing = prev.entry(unit).or_insert_with(BTreeSet::new);
                         for conflict in existing.intersection(&unique) {
                             errors.push(format!(
@@ -519,10 +534,7 @@ pub(crate) fn load_defs(ctx: &mut Context, defs: Defs) -> Vec<String> {
                             ));
                         }
                         existing.append(&mut unique);
-                        ctx.temporaries.insert(
-                            prop.name.clone(),
-                            (&input / &output).expect("Non-zero property"),
-                        );
+                        ctx.temporaries.insert(prop.name.clone(), ratio);
                         if output == Number::one() {
                             ctx.temporaries
                                 .insert(prop.input_name.clone(), input.clone());
